@@ -7,6 +7,7 @@ mod c04;
 mod c05;
 mod c08;
 mod c09;
+mod c10;
 mod ckey;
 mod crash;
 mod c12;
@@ -79,6 +80,8 @@ fn main() {
         ("c05", "gen") => c05::gen(&args),
         ("c05", "exec") => c05::exec(&args),
         ("c08", "gen") => c08::gen(&args),
+        ("c10", "gen") => c10::gen(&args),
+        ("c10", "exec") => c10::exec(&args),
         ("c09", "gen") => c09::gen(&args),
         ("c09", "exec") => c09::exec(&args),
         ("ckey", "gen") => ckey::gen(&args),
